@@ -299,6 +299,10 @@ func c05JudgeMem(c c05Case) (clause, detail string) {
 			dstName = c.Name + "-dst"
 		}
 		dst := "d/" + dstName
+		if c.Name2 == "\x00case" {
+			// a sibling whose name differs from the source's only in letter case: another resource
+			dst = swapCase(c.Name)
+		}
 		var err error
 		wantOpt := ""
 		if c.Op == "copy" {
@@ -459,6 +463,10 @@ func c05JudgeLocal(c c05Case) (clause, detail string) {
 	case "copysib", "movesib":
 		// destination is a sibling whose name has the source name as a string prefix (and vice versa)
 		pairs := [][2]string{{"d/" + c.Name, "d/" + c.Name + ".bak"}, {"d/" + c.Name + ".dir", "d/" + c.Name + ".di"}}
+		if sc := swapCase(c.Name); sc != c.Name {
+			// a sibling differing only in letter case is another resource (the sandbox's file system is case-sensitive)
+			pairs = append(pairs, [2]string{"d/" + c.Name + ".bak", "d/" + sc + ".BAK"})
+		}
 		for _, pr := range pairs {
 			var err error
 			if c.Op == "copysib" {
@@ -589,6 +597,18 @@ func c05NameClass(n string) string {
 	return strings.Join(f, "+")
 }
 
+func swapCase(s string) string {
+	return strings.Map(func(r rune) rune {
+		switch {
+		case r >= 'a' && r <= 'z':
+			return r - 32
+		case r >= 'A' && r <= 'Z':
+			return r + 32
+		}
+		return r
+	}, s)
+}
+
 func init() {
 	register("C05", func(r *engine.Run) {
 		full := thorough(r)
@@ -651,6 +671,13 @@ func init() {
 			for _, b := range names2 {
 				for _, op := range []string{"copy", "move"} {
 					cases = append(cases, c05Case{Backend: "memfs", Endpoint: "http://h/pre", Op: op, Name: a, Name2: b, Rel: len(a)%2 == 0})
+				}
+			}
+		}
+		for _, a := range c05Names {
+			if swapCase(a) != a {
+				for _, op := range []string{"copy", "move"} {
+					cases = append(cases, c05Case{Backend: "memfs", Endpoint: "http://h/pre", Op: op, Name: a, Name2: "\x00case", Rel: len(a)%2 == 1})
 				}
 			}
 		}
